@@ -41,6 +41,9 @@ type schedule struct {
 	// LiveReindex: after quiescence Reindex() is called on this (non-fresh) index and the rows are
 	// compared once more.
 	LiveReindex bool `json:"live_reindex,omitempty"`
+	// LateDangling (worlds with a dangling dependency): after everything else (incl. LiveReindex)
+	// the missing blob is delivered after all; the index must converge to the state of the complete set.
+	LateDangling bool `json:"late_dangling,omitempty"`
 }
 
 type delaySrc struct {
@@ -64,6 +67,11 @@ type result struct {
 	reNeeds, reNeededBy, reReady int
 	reErr                        error
 	badBeforeKey                 bool // a blob with an invalid signature was delivered before its key
+	// after LateDangling
+	lateDump                           []string
+	lateNeeds, lateNeededBy, lateReady int
+	lateErr                            error
+	lateDone                           bool
 }
 
 // tolerable reports whether a delivery error of b is within what the property allows: a blob
@@ -269,6 +277,16 @@ func execute(w *hw.World, sc schedule, kvKind string, dir string) (res result) {
 			res.reErr = err
 		}
 	}
+	if res.err == nil && sc.LateDangling && w.Dangling != nil {
+		res.lateDone = true
+		if err := x.Deliver(*w.Dangling); err != nil {
+			res.lateErr = fmt.Errorf("late delivery of the missing %s %v: %w", w.DanglingKind, w.Dangling.Ref, err)
+			return
+		}
+		x.Quiesce()
+		res.lateNeeds, res.lateNeededBy, res.lateReady = x.Index.VerifPending()
+		res.lateDump, res.lateErr = hw.Dump(kv)
+	}
 	return
 }
 
@@ -396,23 +414,26 @@ func permutations(n int, fn func([]int)) {
 
 func main() {
 	ev.Main("C05", "exploration",
-		"generated blob sets (keys, permanodes, set/add/del/path/member claims, delete chains, files with nested bytes, directories, opaque blobs; optionally one dangling dependency) delivered under arrival schedules: all permutations for sets of <=6 blobs, seeded permutations for larger sets, prefilled/non-prefilled source, duplicates, mid-history restarts, 2-8 concurrent deliverers with jitter in the blob source; the sorted row dump must equal the dependency-order run and a full Reindex; distinct = (world, schedule); non-trivial = schedule differs from dependency order",
+		"generated blob sets (keys, permanodes, set/add/del/path/member/share claims, delete chains incl. deletes of shares, files with nested bytes, directories with plain and split (mergeSets) static sets, opaque blobs, signed blobs with an INVALID signature (never indexable; they wait for their key like any signed blob); optionally one dangling dependency: key, chunk, bytes, static set, delete target incl. a permanode) delivered under arrival schedules: all permutations for sets of <=6 blobs, seeded permutations for larger sets, prefilled/non-prefilled source, adjacent and late duplicates, mid-history restarts, 2-8 concurrent deliverers (round-robin, and random lanes where ~10% of the blobs are uploaded by 2-3 lanes at once, optionally with a restart barrier) with jitter in the blob source, and same-blob races (2-6 concurrent uploads of one dependant while its dependency arrives, the not-found answers of the dependency lookup at the blob source / meta row steered by a seeded hold policy); the sorted row dump must equal the dependency-order run, a full Reindex on a fresh index, and (sampled) a Reindex() on the live index after the schedule; complete sets leave no pending needs, nothing indexable stays queued, and a dangling set converges to the complete set's rows when the missing blob is delivered after any schedule; distinct = (world, schedule); non-trivial = schedule differs from dependency order",
 		run)
 }
 
 type job struct {
-	w    *hw.World
-	wid  string
-	sc   schedule
-	kv   string
-	want []string // reference dump (nil: pending-world expectations instead)
-	race *raceSpec
+	w        *hw.World
+	wid      string
+	sc       schedule
+	kv       string
+	want     []string // reference dump (nil: pending-world expectations instead)
+	wantFull []string // dangling worlds: reference dump of the complete set (incl. the dangling blob)
+	race     *raceSpec
 }
 
 func run(r *ev.Run) {
 	log.SetOutput(io.Discard)
 	r.Assume("the reference state is the row dump of an in-dependency-order delivery on a fresh memory KV")
 	r.Assume("row dumps are taken after the out-of-order reindexing goroutines quiesce (hook VerifWaitOutOfOrder)")
+	r.Assume("a signed blob whose signature is invalid can never be indexed: its delivery may be refused, it has no rows (beyond a missing| edge while its key is absent) and it may stay in the ready-to-reindex queue; no other blob may stay there")
+	r.Assume("hold timers of the same-blob races only shape the interleaving; every verdict is taken from the rows and pending maps after quiescence")
 	root := ev.Scratch("c05")
 	defer os.RemoveAll(root)
 	var mu sync.Mutex
@@ -504,6 +525,23 @@ func run(r *ev.Run) {
 						r.Violation("ready-not-run/live-reindex", fmt.Sprintf("world %s: %d blobs ready to reindex but never run after Reindex()", j.wid, res.reReady), rec)
 					}
 				}
+				if res.lateDone {
+					r.Eval(1)
+					r.Note("schedule_modes", "dangling-delivered-after-"+mode)
+					if res.lateErr != nil {
+						r.Violation("delivery-error/dangling", fmt.Sprintf("world %s: %v", j.wid, res.lateErr), rec)
+					} else if a, b := diff(j.wantFull, res.lateDump); len(a)+len(b) > 0 {
+						kind := "?"
+						if len(a) > 0 {
+							kind = rowKind(a[0])
+						} else {
+							kind = rowKind(b[0])
+						}
+						r.Violation("order-dependence/dangling-late/"+kind, fmt.Sprintf("world %s: the missing %s delivered after this schedule: rows only in the dependency-order index of the complete set:%s; rows only here:%s", j.wid, j.w.DanglingKind, show(a), show(b)), rec)
+					} else if res.lateNeeds != 0 || res.lateNeededBy != 0 || res.lateReady > len(j.w.Bad) {
+						r.Violation("stale-pending/dangling-late", fmt.Sprintf("world %s: needs=%d neededBy=%d ready=%d after the missing blob arrived", j.wid, res.lateNeeds, res.lateNeededBy, res.lateReady), rec)
+					}
+				}
 				mu.Lock()
 				if mode != "sequential" && sampledMode[mode] < 1 && sampled < 5 {
 					sampledMode[mode]++
@@ -515,7 +553,15 @@ func run(r *ev.Run) {
 		}()
 	}
 
-	submit := func(j job) { jobs <- j }
+	wantFullOf := map[*hw.World][]string{}
+	submit := func(j job) {
+		if j.sc.LateDangling {
+			if j.wantFull = wantFullOf[j.w]; j.wantFull == nil {
+				j.sc.LateDangling = false
+			}
+		}
+		jobs <- j
+	}
 	identity := func(n int) []int {
 		p := make([]int, n)
 		for i := range p {
@@ -553,7 +599,7 @@ func run(r *ev.Run) {
 		}
 		r.Note("schedule_modes", "full-reindex")
 		if w.Dangling != nil {
-			checkDangling(r, w, wid, ref, rec)
+			wantFullOf[w] = checkDangling(r, w, wid, ref, rec)
 		}
 		return ref.dump, true
 	}
@@ -562,7 +608,11 @@ func run(r *ev.Run) {
 	srng := r.Rand("small-worlds")
 	nSmall := r.Pick(14, 40)
 	for i := 0; i < nSmall; i++ {
-		w := hw.GenWorld(srng, hw.WorldOpts{Small: true, Label: fmt.Sprintf("s%d", i), Dangling: i%5 == 4})
+		wo := hw.WorldOpts{Small: true, Label: fmt.Sprintf("s%d", i), Dangling: i%5 == 4}
+		if i%7 == 5 {
+			wo.BadSig = 1 // an un-indexable claim (invalid signature) among ordinary out-of-order pairs
+		}
+		w := hw.GenWorld(srng, wo)
 		wid := fmt.Sprintf("small%d;", i)
 		if len(w.Blobs) > 6 {
 			r.Count("small_worlds_skipped_too_big", 1)
@@ -579,12 +629,21 @@ func run(r *ev.Run) {
 		cnt := 0
 		permutations(n, func(p []int) {
 			cnt++
-			submit(job{w: w, wid: wid, sc: schedule{Order: p}, kv: "memory", want: want})
+			submit(job{w: w, wid: wid, sc: schedule{Order: p, LateDangling: cnt%3 == 0}, kv: "memory", want: want})
 			if cnt%7 == 0 {
 				submit(job{w: w, wid: wid, sc: schedule{Order: p, Prefill: true}, kv: "memory", want: want})
 			}
 			if cnt%11 == 0 {
 				submit(job{w: w, wid: wid, sc: schedule{Order: p, RestartAt: 1 + cnt%(n-1)}, kv: "memory", want: want})
+			}
+			if cnt%13 == 0 {
+				// a late duplicate: blob at position a again after position b >= a
+				a := cnt % n
+				b := a + (cnt/n)%(n-a)
+				submit(job{w: w, wid: wid, sc: schedule{Order: p, Redeliver: [][2]int{{a, b}}}, kv: "memory", want: want})
+			}
+			if cnt%37 == 0 {
+				submit(job{w: w, wid: wid, sc: schedule{Order: p, LiveReindex: true}, kv: "memory", want: want})
 			}
 		})
 		r.Count("exhaustive_permutation_sets", 1)
@@ -599,8 +658,23 @@ func run(r *ev.Run) {
 	if r.Thorough() {
 		kvKinds = []string{"memory", "leveldb", "kv", "sqlite"}
 	}
-	for i := 0; i < nLarge; i++ {
+	xsrc := r.Rand("extra-schedules")
+	brng := r.Rand("badsig-worlds")
+	nBad := r.Pick(12, 36)
+	for i := 0; i < nLarge+nBad; i++ {
 		wo := hw.WorldOpts{TwoSigners: i%3 == 1, Label: fmt.Sprintf("l%d", i), Dangling: i%4 == 3}
+		if i >= nLarge {
+			// extended worlds: un-indexable blobs (invalid signature) among files, directories and
+			// delete chains; directories with a split static set; share claims (and deletes of them);
+			// a permanode that is a delete target as the dangling blob
+			lrng = brng
+			wo.Dangling = i%5 == 4 || i%5 == 1
+			wo.DanglingPermanode = i%5 == 1
+			wo.BadSig = []int{1, 2, 0, 3}[i%4]
+			wo.SplitDir = i%2 == 0
+			wo.Shares = i % 3
+			wo.Files, wo.Deletes = 2, 3
+		}
 		switch i % 6 {
 		case 0:
 			wo.FileShape, wo.ForceDir = "nested-bytes", true
@@ -644,19 +718,108 @@ func run(r *ev.Run) {
 			if sc.Goroutines > 1 && kv == "sqlite" {
 				kv = "memory"
 			}
+			sc.LateDangling = o%2 == 0
+			submit(job{w: w, wid: wid, sc: sc, kv: kv, want: want})
+			r.Note("kv_kinds", kv)
+		}
+		// additional schedule families (own PRNG, so that the schedules above stay what they were)
+		xrng := rand.New(rand.NewSource(xsrc.Int63()))
+		nExtra := nOrders / 3
+		for o := 0; o < nExtra; o++ {
+			sc := schedule{Order: xrng.Perm(n)}
+			kv := kvKinds[o%len(kvKinds)]
+			switch o % 3 {
+			case 0: // late duplicates, possibly with an ordinary restart in between
+				for d := 0; d < 1+xrng.Intn(3); d++ {
+					a := xrng.Intn(n)
+					sc.Redeliver = append(sc.Redeliver, [2]int{a, a + xrng.Intn(n-a)})
+				}
+				if n > 2 && xrng.Intn(3) == 0 {
+					sc.RestartAt = 1 + xrng.Intn(n-1)
+				}
+			case 1, 2: // random lanes; ~10% of the positions are uploaded by two or three lanes
+				sc.Lanes = randomLanes(xrng, n, 2+xrng.Intn(6))
+				sc.JitterSeed = 1 + xrng.Int63n(1<<40)
+				if xrng.Intn(3) == 0 {
+					sc.Dups = append(sc.Dups, xrng.Intn(n))
+				}
+				if xrng.Intn(3) == 0 {
+					a := xrng.Intn(n)
+					sc.Redeliver = append(sc.Redeliver, [2]int{a, a + xrng.Intn(n-a)})
+				}
+				if n > 2 && xrng.Intn(4) == 0 {
+					sc.RestartAt = 1 + xrng.Intn(n-1)
+				}
+				if kv == "sqlite" {
+					kv = "memory"
+				}
+			}
+			// a full Reindex() on the live index (rows, pending needs and queues of this history in place)
+			sc.LiveReindex = xrng.Intn(4) == 0
+			sc.LateDangling = true
 			submit(job{w: w, wid: wid, sc: sc, kv: kv, want: want})
 			r.Note("kv_kinds", kv)
 		}
 	}
+
+	// 3. same-blob races: K concurrent uploads of one dependant while its dependency arrives
+	rrng := r.Rand("race-worlds")
+	nRaceWorlds := r.Pick(16, 48)
+	nRaces := r.Pick(110, 400)
+	for i := 0; i < nRaceWorlds; i++ {
+		wo := hw.WorldOpts{Label: fmt.Sprintf("r%d", i), Permanodes: 1 + i%2, MaxClaims: 3, Files: 1, Dirs: i % 2, Deletes: 2, Opaque: 1, TwoSigners: i%3 == 2}
+		switch i % 4 {
+		case 0:
+			wo.FileShape = "two-chunks"
+		case 1:
+			wo.FileShape = "nested-bytes"
+			wo.DeleteKinds = []string{"claim", "delete"}
+		case 2:
+			wo.FileShape = "one-chunk"
+			wo.DeleteKinds = []string{"permanode"}
+		case 3:
+			wo.BadSig = 1
+			wo.SplitDir = true
+			wo.Shares = 1
+		}
+		w := hw.GenWorld(rrng, wo)
+		wid := fmt.Sprintf("race%d;", i)
+		trng := rand.New(rand.NewSource(rrng.Int63()))
+		if !r.Only(wid) {
+			continue
+		}
+		want, ok := prepare(w, wid)
+		if !ok {
+			continue
+		}
+		pairs := racePairs(w)
+		if len(pairs) == 0 {
+			r.Count("race_worlds_without_pair", 1)
+			continue
+		}
+		for t := 0; t < nRaces; t++ {
+			rs := genRace(trng, w, pairs[t%len(pairs)])
+			r.Note("race_dependant_kinds", w.Kind[w.Blobs[rs.F].Ref]+"<-"+w.Kind[w.Blobs[rs.D].Ref])
+			r.Note("race_uploads", fmt.Sprintf("%d", rs.K))
+			submit(job{w: w, wid: wid, want: want, race: rs, kv: "memory"})
+		}
+		r.Count("race_trials", nRaces)
+	}
 	close(jobs)
 	wg.Wait()
-	r.Require("schedule_modes", "sequential", "concurrent", "restart", "duplicates", "prefilled-source", "full-reindex", "dangling-then-delivered")
-	r.Require("world_features", "claim-set-attribute", "claim-add-attribute", "claim-del-attribute", "delete-of-permanode", "delete-of-claim", "delete-of-delete", "nested-bytes", "directory")
+	r.Require("schedule_modes", "sequential", "concurrent", "restart", "duplicates", "prefilled-source", "full-reindex", "dangling-then-delivered",
+		"late-duplicates", "lanes", "lanes-with-restart", "live-reindex", "same-blob-race", "bad-signature-before-key")
+	r.Require("race_uploads", "2", "3", "4")
+	r.Require("race_dependant_kinds", "claim<-key", "permanode<-key", "file<-chunk", "delete<-permanode", "delete<-claim", "directory<-static-set")
+	if r.Only("") && r.Counter("race_trials") > 0 && r.Counter("race_trials_with_lookup_miss") == 0 {
+		r.Inconclusive("no same-blob race ever saw a lookup of the dependency miss: the races did not overlap with the dependency's arrival")
+	}
+	r.Require("world_features", "bad-claim", "bad-permanode", "bad-delete", "split-static-set", "claim-share", "dangling-permanode", "claim-set-attribute", "claim-add-attribute", "claim-del-attribute", "delete-of-permanode", "delete-of-claim", "delete-of-delete", "nested-bytes", "directory")
 }
 
 // checkDangling: the dependants of the missing blob must be remembered as pending, and
 // delivering the missing blob must converge to the state of the complete set.
-func checkDangling(r *ev.Run, w *hw.World, wid string, ref result, rec caseRec) {
+func checkDangling(r *ev.Run, w *hw.World, wid string, ref result, rec caseRec) (wantFull []string) {
 	r.Eval(1)
 	if ref.needs == 0 {
 		r.Violation("pending-dropped/no-needs/"+w.DanglingKind, fmt.Sprintf("world %s: %s %v is missing but the index remembers no pending blob", wid, w.DanglingKind, w.Dangling.Ref), rec)
@@ -699,8 +862,9 @@ func checkDangling(r *ev.Run, w *hw.World, wid string, ref result, rec caseRec) 
 	r.Note("schedule_modes", "dangling-then-delivered")
 	if late.err != nil || want.err != nil {
 		r.Violation("delivery-error/dangling", fmt.Sprintf("world %s: %v / %v", wid, late.err, want.err), rec)
-		return
+		return nil
 	}
+	wantFull = want.dump
 	if a, b := diff(want.dump, late.dump); len(a)+len(b) > 0 {
 		kind := "?"
 		if len(a) > 0 {
@@ -710,7 +874,9 @@ func checkDangling(r *ev.Run, w *hw.World, wid string, ref result, rec caseRec) 
 		}
 		r.Violation("order-dependence/dangling-late/"+kind, fmt.Sprintf("world %s: after late delivery of the missing %s, rows only in dependency order:%s; only after late delivery:%s", wid, w.DanglingKind, show(a), show(b)), rec)
 	}
-	if late.needs != 0 || late.neededBy != 0 || late.ready != 0 {
+	// (a blob with an invalid signature that waited for the late key stays queued: it can never be indexed)
+	if late.needs != 0 || late.neededBy != 0 || late.ready > len(w.Bad) {
 		r.Violation("stale-pending/dangling-late", fmt.Sprintf("world %s: needs=%d neededBy=%d ready=%d after the missing blob arrived", wid, late.needs, late.neededBy, late.ready), rec)
 	}
+	return wantFull
 }
